@@ -85,7 +85,12 @@ pub fn check_coordinates(rep: &mut Report, e: &JmespathError, source: &str, what
     ok
 }
 
-const CORES: [&str; 28] = [
+const CORES: [&str; 33] = [
+    "merge(`{}`, `{}`, `1`)",
+    "merge(`{\"a\":1}`, `{}`, `{}`, 'x')",
+    "not_null(`null`, nofn(`1`))",
+    "contains(`[1]`, `1`, `2`)",
+    "join(', ', `[\"a\", 1]`)",
     "`[[1],[2]]`[::0].a",
     "`[1,2,3]`[::0][0]",
     "`[[1],[2]]`[1:2:0][?@]",
@@ -116,13 +121,15 @@ const CORES: [&str; 28] = [
     "not_null()",
 ];
 
-const PREFIXES: [&str; 10] = [
+const PREFIXES: [&str; 12] = [
     "",
     "'é' | ",
     "'日本\n語' | ",
     "\"\\u00e9\" || ",
     "`\"\u{1F600}\"` | ",
     "'a\r\nb' | ",
+    "'x'\r| ",
+    "\r",
     "\"é日\u{1F600}\" || ",
     "`[\"é\"]`[0] | ",
     "'\u{10FFFF}' | 'é' | ",
